@@ -2,9 +2,10 @@
 formulas the properties state (C01: centre / window / kernel argument of precompute_coefficients;
 C11: nearest-neighbour column and row positions; C15: margins of the fit crop).
 See engines/poly.py for the normal form; nothing is evaluated on runtime values."""
+import re
 from fractions import Fraction
 
-from ..sym import Sym, fmt
+from ..sym import Sym, fmt, short
 from . import poly
 from .poly import p_add, p_atom, p_const, p_mul, Poly, equal, show, atoms_of, freeze
 from .validators import closure_return
@@ -682,4 +683,58 @@ def quantise(rep, prog, rule):
                     "scaled with" % (fmt(p), fmt(st_)))
         else:
             rep.unk(rule, key, f.loc, "scale exponent %s vs stored precision %s" % (fmt(p), fmt(st_)))
+    rep.floor(rule, "normaliser constructors", n, 2)
+
+
+def quantised_untouched(rep, prog, rule):
+    """the quantised coefficient of a weight is round(weight * scale) and nothing else"""
+    rep.rule(rule, "in Normalizer16::new / Normalizer32::new the vector of quantised coefficients of a "
+             "chunk is handed on as it was collected from the per-weight conversion: no element is "
+             "written afterwards (last_mut / first_mut / get_mut / index_mut / iter_mut / swap on the "
+             "collected vector). An adjustment after rounding (putting the rounding remainder of the "
+             "sum into one tap) gives that coefficient another value -- and possibly another sign -- "
+             "than its weight: a non-negative kernel gets a negative tap, raising a source pixel can "
+             "lower a destination pixel")
+    WRITERS = ("last_mut", "first_mut", "get_mut", "index_mut", "iter_mut", "swap", "as_mut_slice",
+               "as_mut", "deref_mut", "fill", "sort", "reverse", "truncate", "insert")
+    n = 0
+    for nm in ("convolution::optimisations::Normalizer16::new",
+               "convolution::optimisations::Normalizer32::new"):
+        fs = [f for f in prog.fns.values() if f.name == nm]
+        if len(fs) != 1:
+            rep.unk(rule, nm.rsplit("::", 2)[-2] + "|anchor", "", "constructor not found")
+            continue
+        f = fs[0]
+        rep.touch(f)
+        sym = Sym(f)
+        # the collected vectors: results of `collect` of type Vec<i16> / Vec<i32>
+        vecs = []
+        for c in f.calls():
+            if (c.method or short(c.name)) == "collect" and c.dest:
+                ty = f.local_ty(c.dest[0]) or ""
+                if re.search(r"Vec<i(16|32)>", ty):
+                    vecs.append(c.dest[0])
+        key = nm.rsplit("::", 2)[-2]
+        if not vecs:
+            rep.unk(rule, key, f.loc, "no collected Vec<i16> / Vec<i32> of coefficients found")
+            continue
+        n += 1
+        bad = None
+        for c in f.calls():
+            m = c.method or short(c.name)
+            if m not in WRITERS or not c.args:
+                continue
+            e = sym.operand(c.args[0], (c.bb, "term"))
+            x = e
+            while isinstance(x, tuple) and x and x[0] in ("ref", "deref", "cast", "reborrow"):
+                x = x[2] if x[0] == "cast" else x[1]
+            if x[0] == "local" and x[1] in vecs:
+                bad = (c, m)
+                break
+        if bad:
+            rep.bad(rule, key + "|adjusted", bad[0].at,
+                    "%s modifies the collected coefficients through `%s` after the weights were rounded: "
+                    "the adjusted tap no longer is round(weight * 2^precision)" % (nm, bad[1]))
+        else:
+            rep.ok(rule, key, f.loc, "coefficients are handed on as collected")
     rep.floor(rule, "normaliser constructors", n, 2)
